@@ -148,6 +148,14 @@ impl<'a> Tr<'a> {
                 Some(x) => self.expr(x, k),
                 None => Err(format!("{}: bare return", self.what)),
             },
+            // `some_check(input)?;` : an early error exit, otherwise continue
+            syn::Expr::Try(t) => {
+                if norm(&tokens(&*t.expr)).contains("::parse(") {
+                    return Err(format!("{}: a `?` on a payload parser outside Ok(E::V(..)): {}", self.what, tokens(e)));
+                }
+                let g = self.fresh();
+                Ok(H::If { g, a: Box::new(k), b: Box::new(H::Fail) })
+            }
             syn::Expr::Break(_) => Ok(k),
             syn::Expr::Assign(_) => Ok(k),
             syn::Expr::Call(c) => {
